@@ -211,6 +211,15 @@ CALLS = [
     ("def g(p...) p...; g()", lambda x, y, z: []),
     ("def g(p...) p...; g(x, y)", lambda x, y, z: [x, y]),
     ("def g(a) a; g(x, y)", lambda x, y, z: None),
+    # defaults are evaluated at call time: every call gets a fresh value
+    ("def g(v, acc = []) do append(acc, v); acc end; g(x); g(y)", lambda x, y, z: [y]),
+    ("def g(v, acc = []) do append(acc, v); acc end; def r = g(x); [r, g(y), g(z)]", lambda x, y, z: [[x], [y], [z]]),
+    ("def g(v, seen = <<>>) do append(seen, v); list(seen) end; g(x); g(y)", lambda x, y, z: [y]),
+    ("def g(k, m = <<<>>>) do put(m, k, 1); length(m) end; [g(x), g(y), g(z)]", lambda x, y, z: [1, 1, 1]),
+    ("def g(v, acc = [[]]) do append(acc[0], v); acc[0] end; g(x); g(y)", lambda x, y, z: [y]),
+    ("def mk() fn(v, acc = []) do append(acc, v); acc end; def h = mk(); h(x); h(y)", lambda x, y, z: [y]),
+    ("def g(v, o = <*n = 0*>) do o->n = o->n + v; o->n end; [g(x), g(y)]", lambda x, y, z: [x, y]),
+    ("def c = x; def g(d = c) d; def r1 = g(); c = y; [r1, g()]", lambda x, y, z: [x, y]),
 ]
 
 
@@ -346,7 +355,8 @@ def run_calls(ctx, cell):
     ctx.reach("calls")
     text, model = CALLS[cell["i"]]
     key = "C03:calls:" + text[:30]
-    x, y, z = ctx.int("x", 100, 199), ctx.int("y", 200, 299), ctx.int("z", 300, 399)
+    w = 1 if ("<<" in text) else 99          # values that get hashed: two-value domains
+    x, y, z = ctx.int("x", 100, 100 + w), ctx.int("y", 200, 200 + w), ctx.int("z", 300, 300 + w)
     out = run_ckl(DEF + text, {"x": vint(x), "y": vint(y), "z": vint(z)})
     exp = model(x, y, z)
     detail = lambda: {"call": text, "x": int(x), "y": int(y), "z": int(z), "got": ctx.plain(out),
